@@ -364,3 +364,21 @@ PROPS["C18"] = {
         {"pkg": "verifx/tree", "run": "^TestC18BlockIdentity$", "quick": {"checks": 120, "shards": 6, "timeout": 400}, "thorough": {"checks": 3000, "shards": 12, "timeout": 1700}},
     ],
 }
+
+PROPS["C06"] = {
+    "title": "Crash recovery: every crash point leaves a recoverable, consistent chain",
+    "level": "fault_enumeration",
+    "technique": "fault enumeration over generated scenarios: journaling stores record every durable write unit of a crash-free run; every journal prefix (thorough: also every partial bulk flush) is materialised as on-disk stores and a real node is restarted on it; oracle = start + Recover succeed, C05 invariants, best block in {tip before, tip after}, convergence to the crash-free final state after re-feeding the blocks",
+    "level_text": ("Scenarios = generated block trees (2-7 blocks with transactions, 1-3 branches) x arrival schedules (linear connection, orphan resolution, reorganisations of depth 1-3, duplicates), run once on a node whose chain store and state store are wrapped by a journal. The journal lists, in one global order, single sets/deletes, committed DB transactions and flushed bulks. "
+                   "EVERY prefix k of the journal is a crash point: snapshot + first k units are written as the memorydb files of a new directory, a real node boots on it (Init, loadChainData, marker-driven recover) and runs Recover. Checked per crash point: boot and recovery succeed, all C05 invariants, best block is the tip before or after the interrupted arrival, no reorg marker remains, "
+                   "and after all blocks are delivered again best block, state root and full state dump equal those of the crash-free run. The thorough tier additionally crashes inside bulk units after every operation (bulk flushes are not atomic on a real store)."),
+    "level_note": "Exhaustive over the write-unit boundaries of each explored scenario, not over scenarios. Consensus is the permissive stub (the DPoS status is saved inside the tip transaction and reloaded in C08's restarts). Failures of boot/recovery that end in os.Exit kill the test process: the driver reports such a death as a violation with the log as replay. memorydb's on-disk format is the trusted crash model (a store that loses acknowledged writes is out of scope).",
+    "rule": ("a case = scenario (tree + schedule); every case enumerates all its crash points (class counters report how many). Non-trivial = the scenario has at least one crash point strictly inside a multi-unit operation; distinct = distinct scenario."),
+    "assumptions": ["a committed DB transaction is atomic and durable; a bulk flush applies its operations in order", "stub VM stands in for LuaJIT"],
+    "units": [
+        {"pkg": "verifx/tree", "run": "^TestC06CrashPoints$",
+         "quick": {"checks": 40, "shards": 12, "timeout": 500},
+         "thorough": {"checks": 500, "shards": 16, "timeout": 1700}},
+        {"pkg": "verifx/tree", "run": "^TestC06KnownUnadoptedBranch$", "all": {"shards": 1, "timeout": 120}},
+    ],
+}
